@@ -1,0 +1,6 @@
+// Package verifsync is a drop-in replacement for the subset of package
+// sync used by this repository. It is only functional when built with
+// the "verif" build tag, in which case lock operations are reported to
+// an externally installed set of hooks, allowing a model checker to
+// control thread interleavings. It is not used by regular builds.
+package verifsync
